@@ -87,10 +87,89 @@ func repoDir() string {
 	return "/repo"
 }
 
+// ownEntry: does this entry belong to the property's own harness (as opposed to being borrowed from another
+// property's)? Own entries carry the property id in their name; the Connection harnesses are common to C01-C05.
+func ownEntry(id, name string, borrowed bool) bool {
+	if borrowed {
+		return false
+	}
+	if strings.Contains(name, id) {
+		return true
+	}
+	if strings.HasPrefix(name, "zzConn") {
+		return id >= "C01" && id <= "C05"
+	}
+	m := regexp.MustCompile(`^zzC(\d\d)`).FindStringSubmatch(name)
+	return m == nil // entries without a property in their name (zzSSE*, zzSelf*) count as own where they are listed
+}
+
+var harnessFileInErr = regexp.MustCompile(`zz_verif_([\w]+\.go)`)
+
+// dropBorrowed returns a copy of g without the harness files named in the load error, provided none of them defines
+// an own entry, and the names of the (borrowed) entries that go with them; nil if nothing can be dropped.
+func dropBorrowed(id string, g *Group, errText string) (*Group, []string) {
+	bad := map[string]bool{}
+	for _, m := range harnessFileInErr.FindAllStringSubmatch(errText, -1) {
+		bad[m[1]] = true
+	}
+	delete(bad, "prelude.go")
+	if len(bad) == 0 {
+		return nil, nil
+	}
+	defines := func(file, entry string) bool {
+		src, err := os.ReadFile(filepath.Join(verifRoot, "harness", g.Dir, file))
+		return err == nil && regexp.MustCompile(`(?m)^func `+regexp.QuoteMeta(entry)+`\(`).Match(src)
+	}
+	var keep []EntryDef
+	var dropped []string
+	for _, e := range g.Entries {
+		inBad := false
+		for f := range bad {
+			inBad = inBad || defines(f, e.Name)
+		}
+		if !inBad {
+			keep = append(keep, e)
+			continue
+		}
+		if ownEntry(id, e.Name, e.Borrowed) {
+			return nil, nil
+		}
+		dropped = append(dropped, e.Name)
+	}
+	if len(dropped) == 0 && len(keep) == len(g.Entries) {
+		// the broken file defines no entry of this group: it is a support file; drop it only if it is not common.go
+		if bad["common.go"] {
+			return nil, nil
+		}
+	}
+	g2 := *g
+	g2.Entries = keep
+	g2.Harness = nil
+	for _, h := range g.Harness {
+		if !bad[h] {
+			g2.Harness = append(g2.Harness, h)
+		}
+	}
+	if len(g2.Harness) == len(g.Harness) {
+		return nil, nil
+	}
+	return &g2, dropped
+}
+
 func buildOverlay(g *Group, extra map[string]string) (map[string][]byte, error) {
 	ov := map[string][]byte{}
 	pkgName := ""
-	for _, h := range g.Harness {
+	hs := g.Harness
+	if _, err := os.Stat(filepath.Join(verifRoot, "harness", g.Dir, "common.go")); err == nil {
+		has := false
+		for _, h := range hs {
+			has = has || h == "common.go"
+		}
+		if !has {
+			hs = append(append([]string{}, hs...), "common.go")
+		}
+	}
+	for _, h := range hs {
 		src, err := os.ReadFile(filepath.Join(verifRoot, "harness", g.Dir, h))
 		if err != nil {
 			return nil, err
@@ -215,6 +294,7 @@ func runCheck(id, tier, replayPath string, workers int, extraOverlay map[string]
 	var inconclusive []string
 	var vacuous []string
 	knownHits := map[string]string{}
+	var skipped []string
 	loadS := 0.0
 	exit := 0
 	for gi := range spec.Groups {
@@ -225,6 +305,24 @@ func runCheck(id, tier, replayPath string, workers int, extraOverlay map[string]
 			return 2
 		}
 		l, err := Load(repoDir(), ov, []string{g.Pkg}, workers, os.Getenv("VERIF_SOLVER"), 20000)
+		for tries := 0; err != nil && tries < 6; tries++ {
+			// Entries borrowed from another property's harness are optional: if the file that defines them no longer
+			// type-checks against this tree they are dropped (with a note) and the property's own entries still run.
+			// A file that defines one of this property's own entries is never dropped: then the check is broken.
+			g2, dropped := dropBorrowed(id, g, err.Error())
+			if g2 == nil {
+				break
+			}
+			for _, d := range dropped {
+				fmt.Printf("NOTE property=%s: borrowed entry %s skipped: its harness file does not type-check against this tree\n", id, d)
+				skipped = append(skipped, d)
+			}
+			g = g2
+			if ov, err = buildOverlay(g, extraOverlay); err != nil {
+				break
+			}
+			l, err = Load(repoDir(), ov, []string{g.Pkg}, workers, os.Getenv("VERIF_SOLVER"), 20000)
+		}
 		if err != nil {
 			fmt.Printf("BROKEN-HARNESS property=%s group=%s: harness does not load against the current tree:\n%v\n", id, g.Pkg, err)
 			return 2
